@@ -97,6 +97,7 @@ def E():
     _E["svcls"] = sv
     _E["svcode"] = {sv[n]: i for i, n in enumerate(STRVAL_CLASSES)}
     _E["SubSoup"] = mk("SubSoup", bs4.BeautifulSoup)
+    _E["MyTag"] = mk("MyTag", el.Tag)
     _E["parsercode"] = {bs4.BeautifulSoup: 0, _E["SubSoup"]: 1}
     return _E
 
@@ -1167,6 +1168,19 @@ def check_receiver(ctx, batch, recipe, world, el, path, how, stream, tree_id, ri
                       "Lean code-mirror copyImpl and implementation disagree", stream)
             batch.add(f"c12 copyspec {root_inh} {nxt} {ptxt} {wd}", expected, case,
                       "Lean recursion copySpec and implementation disagree", stream)
+            if is_tag(el) and ri % 3 == 0:
+                # the public first step on its own: a clone without contents
+                reg2 = Reg()
+                wd2 = dump(reg2, world)
+                nxt2 = reg2.next
+                c0 = el.copy_self()
+                cd0 = dump(reg2, c0)
+                ctx.count("copy_self:calls")
+                if c0.contents or c0.parent is not None or c0.next_element is not None:
+                    ctx.violation("copy_self() gives a clone that has contents or is attached", case=case | {"op": "copy_self"},
+                                  expected="empty, detached", observed=c0.decode(), stream=stream)
+                batch.add(f"c12 copyself {root_inh} {nxt2} {ptxt} {wd2}", f"{reg2.next} {cd0}", case | {"op": "copy_self"},
+                          "Lean copySelf and Tag.copy_self() disagree", stream)
         if is_tag(el):
             batch.add(f"c12 events {root_inh} {ptxt} {wd}", ev_real, case | {"op": "events"},
                       "Lean event list and _event_stream disagree", stream, norm=norm_events)
@@ -1419,6 +1433,12 @@ def variant(r, base_recipe, k):
         "wrap": ["wrap", ni, "div"],
         "list-class": None,
         "str-vs-list": None,
+        "tag-class": None,
+        "name-case": None,
+        "attr-key-case": None,
+        "attr-value-space": None,
+        "string-unicode": None,
+        "attr-scalar": None,
     }
     return k, ops[k]
 
@@ -1471,10 +1491,61 @@ def apply_variant(r, root, k, op):
         v = t.attrs[kk]
         dict.__setitem__(t.attrs, kk, " ".join(v) if isinstance(v, list) else e["el"].AttributeValueList([raw(v)]))
         return True
+    if k == "tag-class":
+        # the same tag as an instance of a Tag subclass: the class is not part of the relation
+        ts = [t for t in tags if t is not root and type(t) is e["Tag"]]
+        if not ts:
+            return False
+        t = r.choice(ts)
+        m = e["MyTag"](None, None, t.name, t.namespace, t.prefix, None)
+        for kk, vv in t.attrs.items():
+            dict.__setitem__(m.attrs, kk, vv)
+        t.replace_with(m)
+        for kid in list(t.contents):
+            m.append(kid.extract())
+        return True
+    if k == "name-case":
+        t = r.choice(tags)
+        if t.name == t.name.upper():
+            return False
+        t.name = t.name.upper()
+        return True
+    if k == "attr-key-case":
+        ts = [(t, kk) for t in tags for kk in t.attrs if type(kk) is str and kk != kk.upper()]
+        if not ts:
+            return False
+        t, kk = r.choice(ts)
+        items = [(a.upper() if a is kk else a, b) for a, b in t.attrs.items()]
+        if len({raw(a) for a, _ in items}) != len(items):
+            return False
+        t.attrs.clear()
+        for a, b in items:
+            dict.__setitem__(t.attrs, a, b)
+        return True
+    if k == "attr-value-space":
+        ts = [(t, kk) for t in tags for kk, vv in t.attrs.items() if type(vv) is str]
+        if not ts:
+            return False
+        t, kk = r.choice(ts)
+        dict.__setitem__(t.attrs, kk, t.attrs[kk] + r.choice([" ", "\u00a0", "\n"]))
+        return True
+    if k == "string-unicode":
+        if not strs:
+            return False
+        s_ = r.choice(strs)
+        s_.replace_with(type(s_)(raw(s_) + r.choice(["\U0001f600", "\ud800", "\x00", "e\u0301", "\u00e9", "\u212b", "\u00c5"])))
+        return True
+    if k == "attr-scalar":
+        ts = [t for t in tags if type(t.attrs) is e["el"].AttributeDict]
+        if not ts:
+            return False
+        t = r.choice(ts)
+        dict.__setitem__(t.attrs, "sc", r.choice([1, True, 2, None, "1", "True", 0, False, ["1"]]))
+        return True
     raise ValueError(k)
 
 
-VARIANTS = ["rename", "attr-value", "attr-del", "list-append", "child-removed", "child-added", "tag-added", "string-class",
+VARIANTS = ["tag-class", "name-case", "attr-key-case", "attr-value-space", "string-unicode", "attr-scalar", "rename", "attr-value", "attr-del", "list-append", "child-removed", "child-added", "tag-added", "string-class",
             "string-text", "attr-order", "move", "prefix", "hidden", "wrap", "list-class", "str-vs-list"]
 
 
